@@ -577,3 +577,47 @@ def run_memtype(prog, rep):
     if n < 10:
         raise AnalysisBroken('R-MEMTYPE: only %d raw transfers found' % n)
     return rule
+
+
+
+def run_reclaim(prog, rep):
+    """variable-length memory is reclaimed over the MEMORY space of the read that filled the buffer (the file space addresses other elements)"""
+    rule = rep.rule('R-RECLAIM', 'vlenReclaim is given the buffer and the memory space of the read that filled it', floor=4)
+    n = 0
+    for f in sorted(prog.funcs.values(), key=lambda f: (f.file, f.line)):
+        if f.body is None or not f.q.startswith('nix::hdf5::') or f.q.startswith('nix::hdf5::DataSet::'):
+            continue
+        recl = [c for c in f.calls(name='vlenReclaim')]
+        if not recl:
+            continue
+        reads = [c for c in f.calls(name='read') if 'DataSet' in (c.callee.get('cls') or '')]
+        ties = [c for c in f.calls(name='offsetCount2DataSpaces')]
+        for c in recl:
+            a = real_args(c)
+            n += 1
+            key = '%s|vlenReclaim@%s' % (re.sub(r'<.*', '', f.q), a[1].src(20))
+            if len(a) < 3 or a[2] is None or a[2].k == 'defarg':
+                rule.ok(key, rep.where(c), f.label(), 'whole data set (no space given)', nontrivial=False)
+                continue
+            sp = unwrap(a[2])
+            spv = unwrap(sp.c[0]) if sp.k == 'unop' and sp.get('op') == '&' and sp.c else sp
+            name = spv.decl.get('name') if spv.k == 'ref' else None
+            # which variable is the memory space: first element of the tie(mem, file) = offsetCount2DataSpaces(...) / third argument of the raw read
+            mem = None
+            for r in reads:
+                ra = real_args(r)
+                if len(ra) == 4 and 'DataSpace' in (ra[2].t or ''):
+                    x = unwrap(ra[2])
+                    mem = x.decl.get('name') if x.k == 'ref' else mem
+            if mem is None:
+                for t in f.walk():
+                    if t.k == 'call' and (t.callee or {}).get('name') == 'tie':
+                        ta = real_args(t)
+                        if ta and unwrap(ta[0]).k == 'ref':
+                            mem = unwrap(ta[0]).decl.get('name')
+            ok = name is not None and mem is not None and name == mem
+            rule.check(ok, key, rep.where(c), f.label(), 'reclaimed over the memory space %s' % mem,
+                       'reclaim is given the space %s, the memory space of the read is %s: over the file space libhdf5 frees buffer elements [offset, offset+count) - past the end of the buffer for any read that does not start at row 0' % (name, mem))
+    if n < 4:
+        raise AnalysisBroken('R-RECLAIM: only %d reclaim sites found' % n)
+    return rule
